@@ -519,7 +519,17 @@ namespace nmtools::array
                 return true;
             } else
             if constexpr (meta::is_reduction_v<view_type>) {
-                return this->eval_reduction(output);
+                using initial_type = meta::remove_cvref_t<decltype(view.initial)>;
+                using dtype_type   = meta::remove_cvref_t<decltype(view.dtype)>;
+                if constexpr (!is_none_v<initial_type> || !is_none_v<dtype_type>) {
+                    // the simd reduction kernels start from the operation's identity and work in the input's element type:
+                    // a reduction with an initial value or a result dtype is left to the scalar evaluator
+                    auto fallback = evaluator_t<view_t,none_t,resolver_t>{view,None};
+                    fallback(output);
+                    return true;
+                } else {
+                    return this->eval_reduction(output);
+                }
             } else if constexpr (meta::is_outer_v<view_type>) {
                 return this->eval_outer(output);
             } else {
